@@ -119,7 +119,7 @@ Print Assumptions C13_Pipeline_valid_implies_precond_partial.
 
 (** the hand-modelled Validate() methods are all the Validate() methods the code can reach for the modelled kinds
     (from the GENERATED list: a new Validate() method in /repo breaks this obligation) *)
-Theorem C13_validators_modelled : validators_covered ("Pipeline" :: cv_leaf) = true.
+Theorem C13_validators_modelled : validators_covered ("Pipeline" :: "MQTTProxy" :: cv_leaf) = true.
 Proof. exact validators_modelled. Qed.
 Print Assumptions C13_validators_modelled.
 
@@ -137,7 +137,8 @@ Theorem C13_refuted_builder_template : exists c, refutes 9 c. Proof. exact refut
 Theorem C13_refuted_topic_index : exists c, refutes 10 c. Proof. exact refuted_topic_index. Qed.
 Theorem C13_refuted_flow_namespace : exists c, refutes 11 c. Proof. exact refuted_flow_namespace. Qed.
 Theorem C13_refuted_stream_compress : exists c, refutes 12 c. Proof. exact refuted_stream_compress. Qed.
-Print Assumptions C13_refuted_stream_compress.
+Theorem C13_refuted_mqtt_rules : exists c, refutes 13 c. Proof. exact refuted_mqtt_rules. Qed.
+Print Assumptions C13_refuted_mqtt_rules.
 
 (** non-vacuity: the hypotheses of the [accepted] theorems are satisfiable *)
 Example C13_nonvacuous : exists o raw g, accepted o "filter" "RateLimiter" raw g /\ aget "urls" g <> [].
